@@ -12,10 +12,12 @@ from common import HELPERS, Report, ToolError, check_action_coverage, log, run_c
 NONE = "<none>"
 NAMES = ["n1", "a.b", "x-y", "_u", "vpa", "vmk", "7z", "4.2"]      # 4.2: a name of digits and dots only
 DEF = {"v1": "'vpa -x'", "v2": "'vpa \"o q\"'", "v3": "\"vpa 'o q'\"", "v4": "'vpa P1 | vio F r'", "v5": "'vmk 5 0'", "v6": "'vpa -s6'", "v7": "'vpa a=b'",
-       "v8": "'\"vpa\" -q8'"}        # a value that begins with a quoted command word
+       "v8": "'\"vpa\" -q8'",        # a value that begins with a quoted command word
+       "v9": "'vpa P9 | vmk 9 0'"}     # a pipeline whose second stage is a word that may itself be an alias name (vmk): not replaced again
 # what a value means: list of (program, fixed args); extra words of the use are appended to the last one
 MEAN = {"v1": [("pa", ["-x"])], "v2": [("pa", ["o q"])], "v3": [("pa", ["o q"])], "v4": [("pa", ["P1"]), ("io", ["F", "r"])],
-        "v5": [("mk", ["5", "0"])], "v6": [("pa", ["-s6"])], "v7": [("pa", ["a=b"])], "v8": [("pa", ["-q8"])]}
+        "v5": [("mk", ["5", "0"])], "v6": [("pa", ["-s6"])], "v7": [("pa", ["a=b"])], "v8": [("pa", ["-q8"])],
+        "v9": [("pa", ["P9"]), ("mk", ["9", "0"])]}
 REAL = {"vpa": "pa", "vmk": "mk"}
 
 
@@ -93,7 +95,12 @@ def check_use(logs, name, v, key):
             want.append(("mk", a if len(a) > 1 else [a[0], "0"]))
     if v == "v4":
         want = []          # key is swallowed by vio; judged separately
-    got = [g for g in got if not (g[0] == "mk" and v != "v5" and name not in REAL)]
+    if v == "v9":
+        # the extra word goes to the second stage (the real vmk, whatever `vmk` is an alias of); the first stage ran as written
+        want = [w for w in want if w[0] == "mk"]
+        if not any(x.get("h") == "pa" and x.get("argv") == ["P9"] for x in logs):
+            return False, want + [("pa", ["P9"])], got
+    got = [g for g in got if not (g[0] == "mk" and v not in ("v5", "v9") and name not in REAL)]
     return norm(got) == norm(want), want, got
 
 
